@@ -6,6 +6,7 @@ from __future__ import annotations
 import os, sys, json, time, traceback, hashlib, importlib, multiprocessing as mp, random
 from concurrent.futures import ProcessPoolExecutor, wait, FIRST_COMPLETED
 from . import sstr
+import z3
 from .sstr import PathState, Infeasible, OutsideSubset, Undecided, SStr, Var, simp
 from . import interp as V
 from . import world as W
@@ -21,8 +22,8 @@ def concretize(model, v, st):
     if isinstance(v, dict): return {k: concretize(model, x, st) for k, x in v.items()}
     if isinstance(v, list): return [concretize(model, x, st) for x in v]
     if isinstance(v, tuple): return tuple(concretize(model, x, st) for x in v)
-    if isinstance(v, sstr.SInt): return model.expr(v.z).as_long()
-    if isinstance(v, sstr.SBool): return bool(model.expr(v.z))
+    if isinstance(v, sstr.SInt): return model.expr(st.resolve_expr(v.z)).as_long()
+    if isinstance(v, sstr.SBool): return bool(z3.is_true(model.expr(st.resolve_expr(v.z))))
     return repr(v)
 
 # ------------------------------------------------------------------ worker
@@ -189,6 +190,12 @@ def summarize(prop, h, tier, seed, cases, results, lemma_obs, wall):
             known_lines.append(f'KNOWN-FINDING: property={prop} {kf.get("what", name)}')
         else:
             violations.append((name, fn, bool(confirmed), witnesses))
+    # ---- recorded findings that are excluded by a stated precondition: replayed natively on every run
+    for k in known:
+        if k.get('kind') == 'known' and k.get('native_witness') is not None and hasattr(h, 'reproduce_known'):
+            try:
+                if h.reproduce_known(k): known_lines.append(f'KNOWN-FINDING: property={prop} {k.get("what")}')
+            except Exception as e: print('note: known finding could not be replayed:', repr(e)[:200])
     # ---- evidence
     level = 'proof' if not getattr(h, 'BOUNDED', None) else 'other'
     samples = []
